@@ -4,6 +4,7 @@ import (
 	"bytes"
 	"encoding/binary"
 	"fmt"
+	"github.com/tobgu/qframe/config/csv"
 	"github.com/tobgu/qframe/config/newqf"
 	"hash/fnv"
 	"io"
@@ -558,8 +559,54 @@ func TestC01Blocks(t *testing.T) {
 			runs++
 		}
 	}
+	// frames whose columns were not assembled by New: read from CSV documents of 200 and 1200 rows (the longer ones with a
+	// RowCountHint, strings untyped), with string columns written by the ToUpper built-in. Results and frames obtained
+	// earlier are fingerprinted again after a sibling was upper-cased, after the same built-in ran on other rows of the
+	// same column, and after the next document was read.
+	csvDoc := func(rows int, tag string) string {
+		var sb strings.Builder
+		sb.WriteString("id,k,s\n")
+		for r := 0; r < rows; r++ {
+			fmt.Fprintf(&sb, "%d,%d,%s-word%d\n", r, (r*7919)%rows, tag, r%13)
+		}
+		return sb.String()
+	}
+	upper := qframe.Instruction{Fn: "ToUpper", DstCol: "u", SrcCol1: "s"}
+	upperInPlace := qframe.Instruction{Fn: "ToUpper", DstCol: "s", SrcCol1: "s"}
+	for _, rows := range []int{200, 1200, 2100} {
+		var fns []csv.ConfigFunc
+		if rows > 1000 {
+			fns = append(fns, csv.RowCountHint(2001))
+		}
+		fa := qframe.ReadCSV(strings.NewReader(csvDoc(rows, "alpha")), fns...)
+		if fa.Err != nil {
+			t.Fatal(fa.Err)
+		}
+		snapA := quickSnap(fa)
+		r1 := fa.Sort(qframe.Order{Column: "k"}).Apply(upper)
+		r1b := fa.Apply(upperInPlace)
+		snap1, snap1b := quickSnap(r1), quickSnap(r1b)
+		r2 := fa.Filter(qframe.Filter{Column: "k", Comparator: "<", Arg: rows / 2}).Apply(upper)
+		r3 := r1b.Sort(qframe.Order{Column: "k", Reverse: true}).Apply(upperInPlace).Sort(qframe.Order{Column: "id"}).Apply(upper)
+		if r2.Err != nil || r3.Err != nil {
+			t.Fatalf("ToUpper on CSV-read frames: %v %v", r2.Err, r3.Err)
+		}
+		fb := qframe.ReadCSV(strings.NewReader(csvDoc(rows, "BRAVO-other-document")), fns...)
+		_ = fb.Apply(upper)
+		if quickSnap(fa) != snapA || quickSnap(r1) != snap1 || quickSnap(r1b) != snap1b {
+			t.Fatalf("VIOLATION: a frame read from a CSV document of %d rows, or the result of the ToUpper built-in on it, changed while siblings were upper-cased and the next document was read", rows)
+		}
+		// (and what the second ToUpper made of a column that the first one wrote in another row order is the upper case
+		// of every cell)
+		sv, uv := r3.MustStringView("s"), r3.MustStringView("u")
+		for i := 0; i < r3.Len(); i++ {
+			if w := strings.ToUpper(*sv.ItemAt(i)); uv.ItemAt(i) == nil || *uv.ItemAt(i) != w || !strings.HasPrefix(w, "ALPHA-WORD") {
+				t.Fatalf("VIOLATION: ToUpper of a column that an earlier ToUpper wrote in another row order: row %d holds %v, want %q", i, uv.ItemAt(i), w)
+			}
+		}
+	}
 	evC01.CaseHash(true, 0x424c4f43, func() string {
-		return fmt.Sprintf("block sizes: %d operations x %v rows, a family of 4 frames fingerprinted before and after each (%d runs)", len(ops), sizes, runs)
+		return fmt.Sprintf("block sizes: %d operations x %v rows, a family of 4 frames fingerprinted before and after each (%d runs); CSV-read frames of 200/1200/2100 rows around ToUpper and further reads", len(ops), sizes, runs)
 	}, "block-sizes")
 }
 
